@@ -35,6 +35,19 @@ class C12(OutstationProp):
                 seq = (seq + 1) & 15
             sid = "c12_f_%d" % i
             out.append(Case(sid, script_text(sid, "outstation", cfg, ops), {"kind": "functions", "cfg": cfg}))
+        # multi-fragment responses: every fragment must fit and parse, wherever the buffer runs out
+        for i in range(20 if tier == "quick" else 400):
+            cfg = {"unsol": 0, "soltx": rng.choice([249, 250, 251, 252, 253, 300]), "confirm_ms": 1000, "sel": 0, "op": 0, "decode": rng.below(4)}
+            ops = []
+            typ = rng.choice(["analog", "analog", "counter", "binary"])
+            for k in range(rng.range(45, 140)):
+                ops.append(("add", typ, k, 0))
+            seq = rng.below(16)
+            ops.append(("rx", MASTER, "none", hexs(frag(seq, FN["read"], read_classes((0,))))))
+            for k in range(4):
+                ops.append(("rx", MASTER, "none", hexs(frag((seq + k) & 15, FN["confirm"]))))
+            sid = "c12_m_%d" % i
+            out.append(Case(sid, script_text(sid, "outstation", cfg, ops), {"kind": "series", "cfg": cfg}))
         return out
 
     def oracle(self, case, impl):
